@@ -48,6 +48,9 @@ pub struct FieldDef {
     pub default: bool,
     pub skip_if_none: bool,
     pub flatten: bool,
+    /// `skip_serializing_if = "String::is_empty"` / `"Vec::is_empty"` on a non-Option field (String / Vec types only)
+    #[serde(default)]
+    pub skip_if_empty: bool,
 }
 
 #[derive(Debug, Clone, Serialize, Deserialize, PartialEq)]
@@ -123,6 +126,9 @@ fn fix_fields(fields: &mut Vec<FieldDef>, earlier: &[TypeDef]) {
         if !is_opt {
             f.skip_if_none = false
         }
+        if !matches!(f.ty, FTy::Str | FTy::VecU32 | FTy::VecStr) {
+            f.skip_if_empty = false
+        }
         // flatten only over a struct-like earlier type (serde cannot flatten scalars), and never with a rename
         let flatten_ok = matches!(&f.ty, FTy::Ref(k) if is_structlike(&earlier[*k as usize]));
         if !flatten_ok {
@@ -132,6 +138,7 @@ fn fix_fields(fields: &mut Vec<FieldDef>, earlier: &[TypeDef]) {
             f.rename = None;
             f.skip = false;
             f.default = false;
+            f.skip_if_empty = false;
         }
         if f.skip {
             // a skipped field must be Default: keep it a plain integer
@@ -139,6 +146,7 @@ fn fix_fields(fields: &mut Vec<FieldDef>, earlier: &[TypeDef]) {
             f.rename = None;
             f.default = false;
             f.skip_if_none = false;
+            f.skip_if_empty = false;
         }
         // `default` needs Default for the type: not for references
         if matches!(f.ty, FTy::Ref(_)) {
@@ -243,7 +251,7 @@ pub fn normalise(types: &mut Vec<TypeDef>) {
                 }
                 // an enum whose variants are all units is the UnitEnum shape: make sure one carries data
                 if variants.iter().all(|v| matches!(v.kind, VKind::Unit)) {
-                    variants[0].kind = VKind::Struct(vec![FieldDef { name: 0, ty: FTy::U32, rename: None, skip: false, default: false, skip_if_none: false, flatten: false }]);
+                    variants[0].kind = VKind::Struct(vec![FieldDef { name: 0, ty: FTy::U32, rename: None, skip: false, default: false, skip_if_none: false, flatten: false, skip_if_empty: false }]);
                 }
                 // untagged: values must stay distinguishable for the round trip; not needed here (we only serialise)
                 if let Some(c) = rename_all {
@@ -289,6 +297,9 @@ fn field_attrs(f: &FieldDef) -> String {
     }
     if f.skip_if_none {
         a.push("skip_serializing_if = \"Option::is_none\"".into())
+    }
+    if f.skip_if_empty {
+        a.push(format!("skip_serializing_if = \"{}::is_empty\"", if f.ty == FTy::Str { "String" } else { "Vec" }))
     }
     if f.flatten {
         a.push("flatten".into())
@@ -408,7 +419,7 @@ impl Rng {
     fn pick(&mut self, n: usize) -> usize { (self.next() % n as u64) as usize }
 }
 pub trait Gen: Sized { fn gen(r: &mut Rng) -> Self; }
-impl Gen for String { fn gen(r: &mut Rng) -> Self { ["", "a", "hello world", "ü/\"q\"", "0", "null"][r.pick(6)].to_string() } }
+impl Gen for String { fn gen(r: &mut Rng) -> Self { if r.1 { ["a", "hello world", "ü/\"q\"", "0", "null"][r.pick(5)].to_string() } else { ["", "a", "hello world", "ü/\"q\"", "0", "null"][r.pick(6)].to_string() } } }
 impl Gen for u8 { fn gen(r: &mut Rng) -> Self { [0u8, 1, 7, 255][r.pick(4)] } }
 impl Gen for u32 { fn gen(r: &mut Rng) -> Self { [0u32, 1, 42, u32::MAX][r.pick(4)] } }
 impl Gen for i64 { fn gen(r: &mut Rng) -> Self { [0i64, -1, 1 << 40, i64::MIN, i64::MAX][r.pick(5)] } }
@@ -457,7 +468,7 @@ fn field_features(f: &FieldDef, out: &mut BTreeSet<String>) {
     if f.default {
         out.insert("default".into());
     }
-    if f.skip_if_none {
+    if f.skip_if_none || f.skip_if_empty {
         out.insert("skip_serializing_if".into());
     }
     if f.flatten {
@@ -552,7 +563,7 @@ fn fty() -> impl Strategy<Value = FTy> {
     ]
 }
 fn field() -> impl Strategy<Value = FieldDef> {
-    (0u8..8, fty(), prop::option::weighted(0.2, 0u8..6), prop::bool::weighted(0.07), prop::bool::weighted(0.15), prop::bool::weighted(0.3), prop::bool::weighted(0.15)).prop_map(|(name, ty, rename, skip, default, skip_if_none, flatten)| FieldDef { name, ty, rename, skip, default, skip_if_none, flatten })
+    (0u8..8, fty(), prop::option::weighted(0.2, 0u8..6), prop::bool::weighted(0.07), prop::bool::weighted(0.15), prop::bool::weighted(0.3), prop::bool::weighted(0.15), prop::bool::weighted(0.3)).prop_map(|(name, ty, rename, skip, default, skip_if_none, flatten, skip_if_empty)| FieldDef { name, ty, rename, skip, default, skip_if_none, flatten, skip_if_empty })
 }
 fn typedef() -> impl Strategy<Value = TypeDef> {
     let case = prop::option::weighted(0.5, 0u8..8);
@@ -968,6 +979,12 @@ impl Property for C16 {
                             // which field writes this key? (ask serde's own renaming through the model of the 8 case rules is
                             // what is under test, so match loosely: letters and digits only)
                             let norm = |s: &str| s.chars().filter(|c| c.is_alphanumeric()).collect::<String>().to_lowercase();
+                            // a field with skip_serializing_if *can* be omitted by serde, whether or not one of the sampled
+                            // values happened to show it
+                            let skippable = fields.iter().any(|f| (f.skip_if_none || f.skip_if_empty) && norm(f.rename.map(|r| RENAMES[r as usize]).unwrap_or(FIELD_NAMES[f.name as usize])) == norm(k));
+                            if skippable && !is_req {
+                                continue;
+                            }
                             let mut ff = BTreeSet::new();
                             for f in fields {
                                 let written = f.rename.map(|r| RENAMES[r as usize]).unwrap_or(FIELD_NAMES[f.name as usize]);
